@@ -2,7 +2,7 @@
 # usage: tools/try_seed.sh <patch.diff> <prop> [<prop> ...]
 # Apply a seeded change to a scratch worktree kept at /repo's HEAD (/tmp/wt/_chk), run the checks on it, undo.
 set -u
-patch="$1"; shift
+patch="$(readlink -f "$1")"; shift
 chk=/tmp/wt/_try
 [ -d "$chk" ] || git -C /repo worktree add -q --detach "$chk" HEAD
 cd "$chk" || exit 2
